@@ -458,3 +458,216 @@ Proof.
 Qed.
 
 End Loop.
+
+(* ================= Part 4: the inflating stage (std::fstream flavour: a failed read sticks) ================= *)
+Lemma st_read n i : s_sticky i = true ->
+  let '(got, i') := s_read n i in
+  s_sticky i' = true /\ s_size i' = s_size i /\ s_pos i <= s_pos i' /\
+  (s_good i' = true -> s_good i = true /\ (0 < n -> s_pos i' = s_pos i + n /\ s_pos i + n <= s_size i)).
+Proof.
+  intros Hs. unfold s_read. rewrite Hs. destruct (s_good i) eqn:G; cbn [negb].
+  2:{ split; [exact Hs|]. split; [reflexivity|]. split; [lia|]. intros C. rewrite G in C. discriminate. }
+  destruct (n <=? 0) eqn:N.
+  { split; [exact Hs|]. split; [reflexivity|]. split; [lia|]. intros _. split; [reflexivity|]. intros C. lia. }
+  apply Z.leb_gt in N.
+  set (avail := Z.max 0 (s_size i - s_pos i)). destruct (avail <? n) eqn:Sh.
+  - destruct (zip_take (Z.to_nat avail) (s_before i) (s_after i)) as [got [b a]].
+    cbn [s_sticky s_size s_pos s_good negb]. split; [reflexivity|]. split; [reflexivity|]. split; [unfold avail; lia|]. intros C; discriminate.
+  - destruct (zip_take (Z.to_nat n) (s_before i) (s_after i)) as [got [b a]].
+    cbn [s_sticky s_size s_pos s_good negb]. apply Z.ltb_ge in Sh.
+    split; [reflexivity|]. split; [reflexivity|]. split; [lia|]. intros _. split; [reflexivity|]. intros _. unfold avail in Sh. lia.
+Qed.
+
+Lemma st_seek off i : s_sticky i = true ->
+  s_sticky (s_seek off i) = true /\ s_size (s_seek off i) = s_size i /\
+  (s_good (s_seek off i) = true -> s_good i = true /\ s_pos (s_seek off i) = s_pos i + off) /\
+  (0 <= off -> s_pos i <= s_pos (s_seek off i)).
+Proof.
+  intros Hs. unfold s_seek. rewrite Hs. destruct (s_good i) eqn:G.
+  - destruct (zip_move (s_before i) (s_after i) (s_cur i) (s_pos i + off)) as [[b a] c].
+    cbn [s_sticky s_size s_pos s_good]. split; [reflexivity|]. split; [reflexivity|]. split; [intros _; split; [reflexivity|reflexivity]|intros; lia].
+  - split; [exact Hs|]. split; [reflexivity|]. split; [intros C; rewrite G in C; discriminate|intros; lia].
+Qed.
+
+Section Sticky.
+Variable cs : classes.
+Variable call : target -> mid -> state -> res (Z * ity).
+Variable sp : scan_params.
+Variable cap : Z.
+Hypothesis HR : rules_ok sp = true.
+
+(* if the stream is still good after the signature search, the search consumed at least 4 bytes that were there *)
+Lemma st_scan : forall n tmp i r i', s_sticky i = true -> scan_loop sp n tmp i = Ok (r, i') ->
+  s_sticky i' = true /\ s_size i' = s_size i /\
+  (s_good i' = true -> s_good i = true /\ s_pos i + 4 <= s_pos i' /\ s_pos i' <= s_size i').
+Proof.
+  induction n as [|n IH]; intros tmp i r i' Hs H; [discriminate|].
+  cbn [scan_loop] in H. pose proof (st_read 4 i Hs) as R. destruct (s_read 4 i) as [got i1]. destruct R as (S1 & Z1 & M1 & G1).
+  destruct (merge_scalar 4 tmp got =? sp_sig sp).
+  - inversion H; subst. split; [exact S1|]. split; [exact Z1|]. intros G. destruct (G1 G) as [A B].
+    assert (H4 : 0 < 4) by lia. destruct (B H4) as [B1 B2]. split; [exact A|]. lia.
+  - destruct (s_eof i1); [discriminate|].
+    pose proof (scan_rule_range sp (merge_scalar 4 tmp got) HR) as Rk. set (k := scan_rule (sp_rules sp) (merge_scalar 4 tmp got)) in *.
+    assert (H4 : 0 < 4) by lia.
+    destruct (k =? 0) eqn:Ek.
+    + destruct (IH _ _ _ _ S1 H) as (A & B & C). split; [exact A|]. split; [lia|]. intros G. destruct (C G) as (C1 & C2 & C3).
+      destruct (G1 C1) as [D1 D2]. destruct (D2 H4) as [E1 E2]. split; [exact D1|]. lia.
+    + destruct (st_seek k i1 S1) as (S2 & Z2 & G2 & _).
+      destruct (IH _ _ _ _ S2 H) as (A & B & C). split; [exact A|]. split; [lia|]. intros G. destruct (C G) as (C1 & C2 & C3).
+      destruct (G2 C1) as [F1 F2]. destruct (G1 F1) as [D1 D2]. destruct (D2 H4) as [E1 E2]. split; [exact D1|]. lia.
+Qed.
+
+(* a read program that only seeks forward: if the stream is still good at the end it was good at the start and did not move back *)
+Theorem st_run_mono : forall p s l i s' i', seeks_ok cs p = true -> s_sticky i = true ->
+  run_r cs call sp cap p s l i = Ok (s', i') ->
+  s_sticky i' = true /\ s_size i' = s_size i /\ (s_good i' = true -> s_good i = true /\ s_pos i <= s_pos i').
+Proof.
+  induction p as [| e | | | f k IH | f k IH | f e k IH | f e k IH | f e k IH | e k IH | e k IH | f e k IH | x t e k IH | x e k IH | k IH | c a IHa b IHb];
+    intros s l i s' i' Hs Hst H; cbn [run_r] in H; cbn [seeks_ok] in Hs; try discriminate.
+  - inversion H; subst. repeat split; auto; lia.
+  - destruct (find_field cs f) as [x|]; [|discriminate]. destruct (ksize (f_kind x)) as [w|]; [|discriminate].
+    pose proof (st_read w i Hst) as R. destruct (s_read w i) as [got i1]. destruct R as (S1 & Z1 & M1 & G1).
+    destruct (read_into x (s f) got) as [v|]; cbn [bind] in H; [|discriminate].
+    destruct (IH _ _ _ _ _ Hs S1 H) as (A & B & C). split; [exact A|]. split; [lia|]. intros G. destruct (C G) as [C1 C2]. destruct (G1 C1) as [D1 _]. split; [exact D1|lia].
+  - destruct (eval_as cs call I64 s l e) as [n|]; cbn [bind] in H; [|discriminate].
+    destruct (s f) as [|b|]; try discriminate.
+    pose proof (st_read n i Hst) as R. destruct (s_read n i) as [got i1]. destruct R as (S1 & Z1 & M1 & G1).
+    destruct (zlen b <? zlen got); [discriminate|].
+    destruct (IH _ _ _ _ _ Hs S1 H) as (A & B & C). split; [exact A|]. split; [lia|]. intros G. destruct (C G) as [C1 C2]. destruct (G1 C1) as [D1 _]. split; [exact D1|lia].
+  - destruct (eval_as cs call U64 s l e) as [n|]; cbn [bind] in H; [|discriminate].
+    destruct (find_field cs f) as [x|]; [|discriminate]. destruct (s f) as [|b|]; try discriminate.
+    destruct (cap <? n * kelt (f_kind x)); [discriminate|]. eapply IH; eauto.
+  - apply andb_prop in Hs. destruct Hs as [Hs1 Hs2].
+    destruct (eval_as cs call I64 s l e) as [off|] eqn:Eo; cbn [bind] in H; [|discriminate].
+    pose proof (seek_ok_nonneg cs call e s l off Hs1 Eo) as Hoff.
+    destruct (st_seek off i Hst) as (S2 & Z2 & G2 & M2).
+    destruct (IH _ _ _ _ _ Hs2 S2 H) as (A & B & C). split; [exact A|]. split; [lia|].
+    intros G. destruct (C G) as [C1 C2]. destruct (G2 C1) as [D1 D2]. split; [exact D1|lia].
+  - destruct (find_field cs f) as [x|]; [|discriminate]. destruct (f_kind x) as [t| |]; try discriminate.
+    destruct (eval_as cs call t s l e) as [v|]; cbn [bind] in H; [|discriminate]. eapply IH; eauto.
+  - destruct (eval_as cs call t s l e) as [v|]; cbn [bind] in H; [|discriminate]. eapply IH; eauto.
+  - destruct (l x) as [[? t]|]; [|discriminate].
+    destruct (eval_as cs call t s l e) as [v|]; cbn [bind] in H; [|discriminate]. eapply IH; eauto.
+  - destruct (scan_loop sp (S (S (length (s_data i)))) 0 i) as [[r i1]|] eqn:Es; cbn [bind] in H; [|discriminate].
+    destruct (st_scan _ _ _ _ _ Hst Es) as (S1 & Z1 & G1). cbn [fst snd] in H.
+    destruct (IH _ _ _ _ _ Hs S1 H) as (A & B & C). split; [exact A|]. split; [lia|].
+    intros G. destruct (C G) as [C1 C2]. destruct (G1 C1) as (D1 & D2 & D3). split; [exact D1|lia].
+  - apply andb_prop in Hs. destruct Hs as [Hs1 Hs2].
+    destruct (eval cs call s l c) as [v|]; cbn [bind] in H; [|discriminate].
+    destruct (fst v =? 0); [eapply IHb|eapply IHa]; eauto.
+Qed.
+
+(* a program that begins like ObjectHeaderBase::read (search, 2+2+4+4 bytes), possibly after member assignments, and goes on
+   seeking only forward: still good at the end means the 16 header bytes were there and were consumed *)
+Fixpoint ohb_prefix (p : prog) : bool :=
+  match p with
+  | PAssign _ _ k => ohb_prefix k
+  | PScan (PRead f1 (PRead f2 (PRead f3 (PRead f4 k)))) => wid cs f1 2 && wid cs f2 2 && wid cs f3 4 && wid cs f4 4 && seeks_ok cs k
+  | _ => false
+  end.
+
+Lemma st_header : forall p s l i s' i', ohb_prefix p = true -> s_sticky i = true ->
+  run_r cs call sp cap p s l i = Ok (s', i') ->
+  s_sticky i' = true /\ s_size i' = s_size i /\
+  (s_good i' = true -> s_good i = true /\ s_pos i + 16 <= s_pos i' /\ s_pos i + 16 <= s_size i).
+Proof.
+  induction p as [| e | | | f k IH | f k IH | f e k IH | f e k IH | f e k IH | e k IH | e k IH | f e k IH | x t e k IH | x e k IH | k IH | c a IHa b IHb];
+    intros s l i s' i' Hs Hst H; cbn [ohb_prefix] in Hs; try discriminate.
+  - cbn [run_r] in H. destruct (find_field cs f) as [x|]; [|discriminate]. destruct (f_kind x) as [t| |]; try discriminate.
+    destruct (eval_as cs call t s l e) as [v|]; cbn [bind] in H; [|discriminate]. eapply IH; eauto.
+  - clear IH.
+    destruct k as [| | | |f1 k| | | | | | | | | | |]; try discriminate.
+    destruct k as [| | | |f2 k| | | | | | | | | | |]; try discriminate.
+    destruct k as [| | | |f3 k| | | | | | | | | | |]; try discriminate.
+    destruct k as [| | | |f4 k| | | | | | | | | | |]; try discriminate.
+    unfold wid in Hs.
+    apply andb_prop in Hs. destruct Hs as [Hs Hk]. apply andb_prop in Hs. destruct Hs as [Hs W4]. apply andb_prop in Hs. destruct Hs as [Hs W3].
+    apply andb_prop in Hs. destruct Hs as [W1 W2].
+    cbn [run_r] in H.
+    destruct (scan_loop sp (S (S (length (s_data i)))) 0 i) as [[r j0]|] eqn:Es; cbn [bind] in H; [|discriminate].
+    destruct (st_scan _ _ _ _ _ Hst Es) as (T0 & Z0 & G0). cbn [fst snd] in H.
+    destruct (find_field cs f1) as [x1|]; [|discriminate]. destruct (ksize (f_kind x1)) as [w1|]; [|discriminate]. apply Z.eqb_eq in W1. subst w1.
+    pose proof (st_read 2 j0 T0) as R1. destruct (s_read 2 j0) as [g1 j1]. destruct R1 as (T1 & Z1 & _ & G1).
+    destruct (read_into x1 _ g1) as [v1|]; cbn [bind] in H; [|discriminate].
+    destruct (find_field cs f2) as [x2|]; [|discriminate]. destruct (ksize (f_kind x2)) as [w2|]; [|discriminate]. apply Z.eqb_eq in W2. subst w2.
+    pose proof (st_read 2 j1 T1) as R2. destruct (s_read 2 j1) as [g2 j2]. destruct R2 as (T2 & Z2 & _ & G2).
+    destruct (read_into x2 _ g2) as [v2|]; cbn [bind] in H; [|discriminate].
+    destruct (find_field cs f3) as [x3|]; [|discriminate]. destruct (ksize (f_kind x3)) as [w3|]; [|discriminate]. apply Z.eqb_eq in W3. subst w3.
+    pose proof (st_read 4 j2 T2) as R3. destruct (s_read 4 j2) as [g3 j3]. destruct R3 as (T3 & Z3 & _ & G3).
+    destruct (read_into x3 _ g3) as [v3|]; cbn [bind] in H; [|discriminate].
+    destruct (find_field cs f4) as [x4|]; [|discriminate]. destruct (ksize (f_kind x4)) as [w4|]; [|discriminate]. apply Z.eqb_eq in W4. subst w4.
+    pose proof (st_read 4 j3 T3) as R4. destruct (s_read 4 j3) as [g4 j4]. destruct R4 as (T4 & Z4 & _ & G4).
+    destruct (read_into x4 _ g4) as [v4|]; cbn [bind] in H; [|discriminate].
+    destruct (st_run_mono _ _ _ _ _ _ Hk T4 H) as (A & B & C). split; [exact A|]. split; [lia|].
+    intros G. destruct (C G) as [C1 C2].
+    assert (H2 : 0 < 2) by lia. assert (H4 : 0 < 4) by lia.
+    destruct (G4 C1) as [D4 E4]. destruct (E4 H4) as [P4 Q4].
+    destruct (G3 D4) as [D3 E3]. destruct (E3 H4) as [P3 Q3].
+    destruct (G2 D3) as [D2 E2]. destruct (E2 H2) as [P2 Q2].
+    destruct (G1 D2) as [D1 E1]. destruct (E1 H2) as [P1 Q1].
+    destruct (G0 D1) as (D0 & P0 & Q0). split; [exact D0|]. lia.
+Qed.
+
+End Sticky.
+
+Lemma st_seek_good off i : s_sticky i = true -> s_good i = true ->
+  s_sticky (s_seek off i) = true /\ s_size (s_seek off i) = s_size i /\ s_good (s_seek off i) = true /\ s_pos (s_seek off i) = s_pos i + off.
+Proof.
+  intros Hs Hg. unfold s_seek. rewrite Hs, Hg.
+  destruct (zip_move (s_before i) (s_after i) (s_cur i) (s_pos i + off)) as [[b a] c]. cbn. repeat split; reflexivity.
+Qed.
+
+Section ContLoop.
+Variable cs : classes.
+Variable sp : scan_params.
+Variable cap : Z.
+Variables C_lc C_ohb F_otype F_method F_usize F_cfile : Z.
+Variable inflate : list Z -> Z -> option (list Z).
+Hypothesis HR : rules_ok sp = true.
+Hypothesis Hohb : ohb_prefix cs (prog_of cs C_ohb M_read) = true.
+Hypothesis Hlc : ohb_prefix cs (prog_of cs C_lc M_read) = true.
+
+(* the inflating stage: every container that is accepted lies inside the file and moves the position on by at least its
+   16-byte base header, so the loop ends within |file| / 16 + 2 iterations — the fuel read_session gives it *)
+Theorem cont_loop_never_out_of_fuel : forall fuel i acc usize, s_sticky i = true ->
+  (Z.to_nat (Z.max 0 (s_size i - s_pos i) / 16) + 2 <= fuel)%nat ->
+  snd (cont_loop cs sp cap C_lc C_ohb F_otype F_method F_usize F_cfile inflate fuel i acc usize) <> EndFuel.
+Proof.
+  induction fuel as [|fuel IH]; intros i acc usize Hst Hf; [lia|].
+  cbn [cont_loop]. unfold dec at 1.
+  destruct (run_r cs (callf cs C_ohb) sp cap (prog_of cs C_ohb M_read) (fresh cs C_ohb) no_locals i) as [[h i1]|e] eqn:E1.
+  2:{ destruct e; cbn; discriminate. }
+  destruct (s_good i1) eqn:G1; cbn [negb]; [|cbn; discriminate].
+  destruct (st_header cs (callf cs C_ohb) sp cap HR _ _ _ _ _ _ Hohb Hst E1) as (T1 & Z1 & H1). destruct (H1 G1) as (G0 & P1 & Q1).
+  destruct (st_seek_good (-16) i1 T1 G1) as (T2 & Z2 & G2 & P2). set (i2 := s_seek (-16) i1) in *.
+  destruct (negb (geti h F_otype =? 10)); [cbn; discriminate|].
+  unfold dec.
+  destruct (run_r cs (callf cs C_lc) sp cap (prog_of cs C_lc M_read) (fresh cs C_lc) no_locals i2) as [[lc i3]|e] eqn:E3.
+  2:{ destruct e; cbn; discriminate. }
+  destruct (s_good i3) eqn:G3; cbn [negb]; [|cbn; discriminate].
+  destruct (st_header cs (callf cs C_lc) sp cap HR _ _ _ _ _ _ Hlc T2 E3) as (T3 & Z3 & H3). destruct (H3 G3) as (_ & P3 & Q3).
+  destruct (uncompress_lc cap F_method F_usize F_cfile inflate lc) as [out|e]; [|destruct e; cbn; discriminate].
+  apply IH; [exact T3|].
+  assert (Hx : 16 <= s_size i - s_pos i) by lia.
+  assert (Hy : s_size i3 - s_pos i3 <= s_size i - s_pos i - 16) by lia.
+  assert (Z.max 0 (s_size i3 - s_pos i3) / 16 <= Z.max 0 (s_size i - s_pos i) / 16 - 1).
+  { replace (Z.max 0 (s_size i - s_pos i)) with (s_size i - s_pos i) by lia.
+    apply Z.le_trans with ((s_size i - s_pos i - 16) / 16).
+    - apply Z.div_le_mono; lia.
+    - replace (s_size i - s_pos i - 16) with (s_size i - s_pos i + (-1) * 16) by lia. rewrite Z.div_add by lia. lia. }
+  assert (0 <= Z.max 0 (s_size i3 - s_pos i3) / 16) by (apply Z.div_pos; lia).
+  lia.
+Qed.
+
+(* a stream that has already failed: the first header read cannot succeed, the loop ends at once *)
+Lemma cont_loop_failed_start : forall fuel i acc usize, s_sticky i = true -> s_good i = false ->
+  snd (cont_loop cs sp cap C_lc C_ohb F_otype F_method F_usize F_cfile inflate (S fuel) i acc usize) <> EndFuel.
+Proof.
+  intros fuel i acc usize Hst Hg. cbn [cont_loop]. unfold dec at 1.
+  destruct (run_r cs (callf cs C_ohb) sp cap (prog_of cs C_ohb M_read) (fresh cs C_ohb) no_locals i) as [[h i1]|e] eqn:E1.
+  2:{ destruct e; cbn; discriminate. }
+  destruct (s_good i1) eqn:G1; cbn [negb]; [|cbn; discriminate].
+  destruct (st_header cs (callf cs C_ohb) sp cap HR _ _ _ _ _ _ Hohb Hst E1) as (_ & _ & H1). destruct (H1 G1) as (G0 & _). congruence.
+Qed.
+
+End ContLoop.
